@@ -17,5 +17,12 @@ AppleGroups == {"All-logs"}
 AppleMembers == [g \in AppleGroups |-> ChromeLogs]
 AppleMin == [g \in AppleGroups |-> 2]
 
-StateView == <<needs, results, cancels, cancelled, done, pc, collected, gstate, consumed, gcomplete, ret, ctxDone, outcome>>
+\* two logs, one proper group and the base group over the same logs: the smallest layout in which a log can be outside
+\* one group's session and inside another's
+DuoLogs == {"n1", "n2"}
+DuoGroups == {"nongoogle", "All-logs"}
+DuoMembers == [g \in DuoGroups |-> DuoLogs]
+DuoMin == [g \in DuoGroups |-> 1]
+
+StateView == <<needs, results, cancels, cancelled, done, pc, collected, gstate, consumed, gcomplete, ret, ctxDone, outcome, sess>>
 =============================================================================
